@@ -331,6 +331,7 @@ impl Oracle for UnsolOracle {
         let mut discarded_now: Vec<u64> = Vec::new();
         let mut kind_trace = 0u64;
         let mut confirm_sent: Option<u8> = None;
+        let mut owed_response: Option<u8> = None;
 
         for (_, ev) in &evs {
             match ev {
@@ -493,6 +494,15 @@ impl Oracle for UnsolOracle {
                         continue;
                     }
                     let in_wait = self.outstanding.is_some();
+                    // "other requests are answered immediately": a non-READ request that has a response, arriving while an
+                    // unsolicited confirmation is pending, is owed its response in this very step
+                    if in_wait
+                        && unicast
+                        && !matches!(step.op, Op::Repeat)
+                        && matches!(func, 2 | 3 | 4 | 5 | 7 | 9 | 11 | 13 | 14 | 20 | 21 | 23 | 24)
+                    {
+                        owed_response = Some(s.bytes[0] & 0x0F);
+                    }
                     match func {
                         refapp::FUNC_READ if unicast => {
                             self.read_in_flight = Some((s.bytes[0] & 0x0F, t));
@@ -803,6 +813,24 @@ impl Oracle for UnsolOracle {
                 self.outstanding = None;
             } else if now == deadline {
                 // on the edge: the timer may or may not have fired yet
+            }
+        }
+        if let Some(seq) = owed_response {
+            let answered = step.received.iter().any(|r| {
+                r.frag
+                    .as_ref()
+                    .map(|f| f.func == refapp::FUNC_RESPONSE && f.ctrl.seq == seq)
+                    .unwrap_or(false)
+            });
+            if !answered && step.link_up && !step.disconnected && !step.connected {
+                return Some(Violation::new(
+                    "C14/R7 request-during-wait-not-answered",
+                    "",
+                    format!(
+                        "step {}: a non-READ request (seq {}) arrived while an unsolicited confirmation was pending and got no response",
+                        step.op_index, seq
+                    ),
+                ));
             }
         }
         // R7 liveness: the deferred READ is answered once the series has ended
